@@ -51,6 +51,26 @@ Definition unaligned_fragments (w : row) (qpos : list Z) : res (list omap) :=
     else if 7 <=? len p2 then Ok [m2]
     else Ok [].
 
+(* `row not in rows` (list membership of AlignmentResultRow objects, which define no __eq__: identity).  Rows are values here; two row
+   objects that can meet in one run are the same object exactly when all their fields coincide (a first-pass and a second-pass row differ
+   in AlignedRest; two second-pass rows of different fragments differ in their pairs), so identity is modelled as structural equality. *)
+Definition lbl_eqb (a b : label) : bool := (site a =? site b) && (lpos a =? lpos b).
+Definition apos_eqb (a b : apos) : bool :=
+  match a, b with
+  | Pair r q s src, Pair r' q' s' src' => lbl_eqb r r' && lbl_eqb q q' && (s =? s') && (src =? src')
+  | URef r, URef r' => lbl_eqb r r'
+  | UQry q st, UQry q' st' => lbl_eqb q q' && (st =? st')
+  | _, _ => false
+  end.
+Definition spos_eqb (a b : spos) : bool := apos_eqb (ap a) (ap b) && (sc a =? sc b).
+Fixpoint list_eqb {A} (f : A -> A -> bool) (a b : list A) : bool :=
+  match a, b with [], [] => true | x :: s, y :: t => f x y && list_eqb f s t | _, _ => false end.
+Definition seg_eqb (a b : segment) : bool := list_eqb spos_eqb (positions a) (positions b) && (sscore a =? sscore b) && (speak a =? speak b).
+Definition row_eqb (a b : row) : bool :=
+  list_eqb seg_eqb (rsegs a) (rsegs b) && (qid a =? qid b) && (rid a =? rid b) && (qlen a =? qlen b) && (rlen a =? rlen b) &&
+  (qs a =? qs b) && (qe a =? qe b) && (rs a =? rs b) && (re a =? re b) && Bool.eqb (rrev a) (rrev b) && (conf a =? conf b) && Bool.eqb (rest a) (rest b).
+Definition row_in (w : row) (l : list row) : bool := existsb (row_eqb w) l.
+
 (* check_overlap / resolve (alignment_results.py:234-271) *)
 Definition check_overlap (a b : row) (maxdiff : Z) : bool :=
   Bool.eqb (rrev a) (rrev b) && (rid a =? rid b) &&
